@@ -163,6 +163,12 @@ def run(ctx, focus='C11'):
                 tf = os.path.join(common.scratch_dir('c18'), 'list.txt')
                 with open(tf, 'w', encoding='utf-8', newline='') as f:
                     f.write(''.join(p_ + '\n' for p_ in pws))
+                    if i % 2 == 0:
+                        # lines a correct reader skips (the $HEX[] payload decodes to text with a carriage return, a TAB, a line feed -
+                        # pot-file artefacts of Windows-formatted lists): they change nothing
+                        for tail_ in ('0d', '09', '0a', '0d0a'):
+                            f.write('$HEX[' + pws[0].encode('utf-8').hex() + tail_ + ']\n')
+                        f.write('$HEX[0d' + pws[-1].encode('utf-8').hex() + ']\n')
                 rt = os.path.join(root, 'c18_full')
                 ok_, log_ = common.train(tf, rt, encoding='utf-8', ngram=ngram, coverage=0.6, alphabet_size=asize, max_len=maxlen)
                 dist['whole_trainings'] = dist.get('whole_trainings', 0) + 1
